@@ -10,7 +10,52 @@ import (
 	"os"
 	"sort"
 	"strings"
+	"sync"
+	"time"
 )
+
+// Watchdog for calls into the real code: the harness brackets every such call with Enter/Leave; a call
+// that does not come back within the limit cannot be interrupted in-process, so the trace recorded so
+// far is flushed together with a `mon HANG` line and the process exits with code 3 (the check turns
+// that into a violation whose replay is the case recorded so far).
+var wd struct {
+	mu     sync.Mutex
+	active bool
+	since  time.Time
+	r      *Recorder
+}
+
+func (r *Recorder) Enter() {
+	wd.mu.Lock()
+	wd.active, wd.since, wd.r = true, time.Now(), r
+	wd.mu.Unlock()
+}
+
+func (r *Recorder) Leave() {
+	wd.mu.Lock()
+	wd.active = false
+	wd.mu.Unlock()
+}
+
+// StartWatchdog starts the monitor goroutine (once per process).
+func StartWatchdog(limit time.Duration) {
+	go func() {
+		for {
+			time.Sleep(200 * time.Millisecond)
+			wd.mu.Lock()
+			hung := wd.active && time.Since(wd.since) > limit
+			r := wd.r
+			wd.mu.Unlock()
+			if hung {
+				// the goroutine that writes the trace is the one that hangs, so the writer is ours now
+				fmt.Fprintf(r.w, "mon HANG | a call into the real code did not return within %v (the operation after the last one recorded in this case)\n", limit)
+				r.w.Flush()
+				r.f.Close()
+				os.Exit(3)
+			}
+		}
+	}()
+}
 
 type Recorder struct {
 	w        *bufio.Writer
@@ -62,6 +107,7 @@ func (r *Recorder) Case(params ...any) {
 		parts[i] = fmt.Sprint(p)
 	}
 	r.curHdr = strings.Join(parts, " ")
+	r.w.Flush() // a crash of the process loses at most the current case
 	fmt.Fprintf(r.w, "case c%d %s\n", r.caseN, r.curHdr)
 	r.curOps = r.curOps[:0]
 	r.curNT = false
